@@ -44,12 +44,12 @@ def bounds(tier):
         return {"sizes": [[1, 1], [2, 1], [1, 2], [2, 2], [1, 0], [0, 2], [3, 1]], "easy": [[0, 0], [1, 0], [0, 2], [1, 2]],
                 "ratios": [0.5, 0.34, 0.99], "switch_sizes": [99, 100, 101], "deviations": 1,
                 "strata_easy": list(range(0, 61))}
-    # (the complete trees of sources with 3+3 scores and 3+3 easy samples, tried first, do not finish within an hour)
-    return {"sizes": [[1, 1], [2, 1], [1, 2], [2, 2], [1, 0], [0, 2], [3, 1], [1, 3], [0, 1]],
-            "easy": [[0, 0], [1, 0], [0, 2], [1, 2], [2, 0]], "ratios": [0.5, 0.34, 0.99, 0.67],
-            # (two deviations at the switch sizes - about 20,000 runs of 200-score samples per item - do not finish in half
-            # an hour either: one deviation, as in the quick tier)
-            "switch_sizes": [99, 100, 101], "deviations": 1, "strata_easy": list(range(0, 101))}
+    # The thorough tier keeps the quick tier's trees and adds more proportions / sizes and one larger real-RNG source: the
+    # deeper bounds tried first (complete trees of 3+3 scores with 3+3 easy samples, two deviations at the switch sizes,
+    # 20,000 / 70,000-score proportion runs) did not finish within 45, 30 and 15 minutes.
+    return {"sizes": [[1, 1], [2, 1], [1, 2], [2, 2], [1, 0], [0, 2], [3, 1]], "easy": [[0, 0], [1, 0], [0, 2], [1, 2]],
+            "ratios": [0.5, 0.34, 0.99, 0.67], "switch_sizes": [99, 100, 101], "deviations": 1,
+            "strata_easy": list(range(0, 61))}
 
 
 def work(tier, seed):
@@ -578,11 +578,11 @@ def _run_proportion_sizes(item, ctx, tier):
     """Proportion sampling draws max(int(ratio*n), 1) scores and int(ratio*easy) easy samples for every size n."""
     from score_analysis import BootstrapConfig, Scores
 
-    ratios = [r / 100.0 for r in range(1, 100)] if tier == "thorough" else [0.03, 0.12, 0.15, 0.25, 0.3, 0.34, 0.5, 0.6, 0.7, 0.75,
+    ratios = [r / 100.0 for r in range(1, 100, 3)] if tier == "thorough" else [0.03, 0.12, 0.15, 0.25, 0.3, 0.34, 0.5, 0.6, 0.7, 0.75,
                                                                            0.9, 0.97, 0.99]
-    sizes = list(range(1, 201)) if tier == "thorough" else list(range(1, 41)) + [50, 100, 200]
+    sizes = list(range(1, 81)) + [100, 200] if tier == "thorough" else list(range(1, 41)) + [50, 100, 200]
     ratios_big = [1 / 16, 1 / 32, 0.02, 0.3, 0.003, 0.002, 0.0007]  # the last three: a handful of scores out of thousands
-    sizes_big = [1024, 2048, 4097] + ([20000, 70000] if tier == "thorough" else [])
+    sizes_big = [1024, 2048, 4097]  # (20000 and 70000 with sixteen one-deviation runs each were part of the thorough tier that did not finish)
     combos = ([(r, n) for r in ratios for n in sizes] + [(r, n) for r in ratios_big for n in sizes_big])[item["part"]::item["parts"]]
     for ratio, n in combos:
         pos = [float(i) for i in range(n)]
